@@ -254,9 +254,25 @@ TIE = {
     "C04": "rtr_get_pdu_type, rtr_pdu_check_size and the in-place header conversion (incl. rtr_pdu_check_size_safe / _mem_indep: for every content, every "
            "nested length of an Error Report, the size check reads only inside the received PDU - the memory-safety clause for this function is a theorem, not an observation)",
     "C10": "tommy_inthash_u32, key_entry_cmp (0 exactly when AS, SKI, SPKI and source agree) and the two record copy helpers",
-    "C14": "lrtr_convert_short/long and rtr_pdu_convert_header_byte_order",
-    "C17": "rtr_check_interval_range, apply_interval_value, rtr_check_interval_option (with the frame condition on struct rtr_socket), rtr_get/set_interval_mode",
+    "C14": "lrtr_convert_short/long, rtr_pdu_convert_header_byte_order, tr_send_all (chunks contiguous and complete for every transport behaviour), the query "
+           "senders (record handed to rtr_send_pdu), rtr_send_error_pdu / rtr_send_pdu / rtr_send_error_pdu_from_host (the bytes handed over are exactly the "
+           "Error Report: lengths consistent, encapsulated copy byte-exact, no byte from uninitialised memory; never in reply to an Error Report) and the "
+           "echo of rtr_receive_pdu (receive_pdu_echo)",
+    "C17": "rtr_check_interval_range, apply_interval_value, rtr_check_interval_option (with the frame condition on struct rtr_socket), rtr_get/set_interval_mode, "
+           "rtr_wait_for_sync (timeout = max 0 (last_update + refresh - now)) and tr_recv_all (the deadline is fixed by the first clock reading, never re-armed)",
+    "C05": "the state machine's control skeleton rtr_fsm_start (query choice in CONNECTING / RESET), rtr_stop, the query senders, rtr_handle_cache_response_pdu "
+           "and rtr_sync (request_session_id is cleared only after the payload was stored)",
+    "C07": "rtr_purge_outdated_records, the CONNECTING iteration of rtr_fsm_start (purge before tr_open), rtr_stop (resets after the join), rtr_set_last_update and rtr_sync",
+    "C08": "rtr_fsm_start (one iteration = a readable skeleton specification; the model's fsmStep is that skeleton instantiated with the model's sub-operations; every "
+           "iteration in a proper state makes an external call; error states close, change to CONNECTING and sleep retry_interval), rtr_sync and the transport-error "
+           "handling of rtr_receive_pdu; the translation of the state machine is validated by replaying logged real runs (harness -DXTRACE)",
+    "C13": "rtr_receive_pdu (the version changes only by the live downgrade on the first PDU of a connection; any other PDU of another version is refused with code 8 "
+           "and nothing more is received), rtr_sync (downgrade on TR_CLOSED before a session exists), rtr_handle_error_pdu (downgrade on error code 4), and the "
+           "reset of has_received_pdus in CONNECTING",
 }
+TIE["C04"] += ("; rtr_receive_pdu as a whole (receive_pdu_defined: under the caller's contract it never reads or writes outside the receive buffer and its own header "
+               "copy, for every byte stream, segmentation and callee answer; lengths < 8 and > RTR_MAX_PDU_LEN are rejected before the payload is received; agreement with "
+               "the model's receivePdu), tr_recv_all (never returns after a short read) and rtr_handle_error_pdu (reads stay inside a size-checked PDU)")
 GATE = ("C01", "C02", "C03", "C09", "C10")
 for _pid, _fns in TIE.items():
     CHECKS[_pid]["text"] += (" Translation tie: the C text of " + _fns + " is translated from clang's typed AST into Lean on every run "
